@@ -62,6 +62,27 @@ func trunc(s string, n int) string {
 	return s
 }
 
+// stripH removes handler-invocation events from a result line
+func stripH(l string) string {
+	i := strings.Index(l, " | ")
+	if i < 0 {
+		return l
+	}
+	var keep []string
+	for _, e := range strings.Split(l[i+3:], " ") {
+		if !strings.HasPrefix(e, "H:") {
+			keep = append(keep, e)
+		}
+	}
+	if len(keep) == 0 {
+		return l[:i]
+	}
+	return l[:i] + " | " + strings.Join(keep, " ")
+}
+
+// scenarioTimeout bounds one scenario (ordinary ones take milliseconds to a few seconds)
+const scenarioTimeout = 240 * time.Second
+
 func main() {
 	stream := flag.String("stream", "", "stream name")
 	n := flag.Int("n", 100, "number of scenarios")
@@ -100,16 +121,28 @@ func main() {
 	}
 
 	const batch = 40
-	for b := lo; b < hi; b += batch {
+	hung := false
+	for b := lo; b < hi && !hung; b += batch {
 		var scs []*scenario
 		var all []string
-		for i := b; i < b+batch && i < hi; i++ {
+		for i := b; i < b+batch && i < hi && !hung; i++ {
 			if *out != "" {
 				// breadcrumb: if the process dies inside this scenario (fatal error, out of memory, kill),
 				// the check reports this scenario as the failing input
 				os.WriteFile(*out+".progress", []byte(fmt.Sprintf("%s:%d:%d", *stream, *seed, i)), 0o644)
 			}
-			sc := fn(*seed, i)
+			// watchdog: a scenario that does not come back (a lost lock token, a loop that stops
+			// consuming its input) is a violation with this scenario as the replay
+			scCh := make(chan *scenario, 1)
+			go func(i int) { scCh <- fn(*seed, i) }(i)
+			var sc *scenario
+			select {
+			case sc = <-scCh:
+			case <-time.After(scenarioTimeout):
+				sc = &scenario{kind: *stream, seed: *seed}
+				sc.violate("the scenario did not finish within %v: a call into the package never returned (deadlock or endless loop)", scenarioTimeout)
+				hung = true
+			}
 			if sc == nil {
 				continue
 			}
@@ -168,7 +201,11 @@ func main() {
 			off += len(sc.script)
 			for j := range sc.script {
 				res.Lines++
-				if !lineMatch(m[j], sc.impl[j]) {
+				ml, il := m[j], sc.impl[j]
+				if sc.quietH {
+					ml, il = stripH(ml), stripH(il)
+				}
+				if !lineMatch(ml, il) {
 					d := diffRec{Seed: *seed, Idx: b + k, Line: j, Script: trunc(sc.script[j], 2000), Model: trunc(m[j], 2000), Impl: trunc(sc.impl[j], 2000)}
 					if len(res.Diffs) < *maxKeep {
 						d.Full = sc.script
@@ -218,11 +255,22 @@ func init() {
 	streams["hsfault"] = func(seed int64, idx int) *scenario { return runHsFaultScenario(seed*1000003+int64(idx), idx) }
 	streams["glue"] = func(seed int64, idx int) *scenario { return runGlueScenario(seed*1000003 + int64(idx)) }
 	streams["nego"] = func(seed int64, idx int) *scenario { return runNegoScenario(seed*1000003+int64(idx), idx) }
-	streams["matrix"] = func(seed int64, idx int) *scenario { return runMatrixScenario(seed, idx+int(seed%7)*61) }
+	// the cell space (4 proxies x 2 schemes x 8 dial-function sets x 4 credentials x 3 certificates x 8
+	// skip-verify slots = 6144 indexes, about a third of them runnable) is walked with a stride coprime
+	// to its size, so that any run length samples every dimension
+	streams["matrix"] = func(seed int64, idx int) *scenario { return runMatrixScenario(seed, (idx*37+int(seed%7)*61)%6144) }
 	streams["sched"] = func(seed int64, idx int) *scenario {
 		if idx%8 == 7 {
 			sd := seed*1000003 + int64(idx)
-			return runSchedBlockedWriterReader(sd, rand.New(rand.NewSource(sd)), (idx/8)%3)
+			return runSchedBlockedWriterReader(sd, rand.New(rand.NewSource(sd)), (idx/8)%4)
+		}
+		if idx%16 == 11 {
+			sd := seed*1000003 + int64(idx)
+			return runSchedSharedPrepared(sd, rand.New(rand.NewSource(sd)), (idx/16)%2 == 1)
+		}
+		if idx%16 == 3 {
+			sd := seed*1000003 + int64(idx)
+			return runSchedCloseDuringWrite(sd, rand.New(rand.NewSource(sd)))
 		}
 		return runSchedScenario(seed*1000003 + int64(idx))
 	}
@@ -230,7 +278,7 @@ func init() {
 		return runWriterScenario(seed*1000003+int64(idx), wOpts{prepared: true, preparedHeavy: true, compress: true, multi: true, closes: idx%6 == 0, invalid: idx%3 == 0, bigPayload: idx%8 == 0}, -1, "")
 	}
 	streams["wf8"] = func(seed int64, idx int) *scenario {
-		return runWriterScenario(seed*1000003+int64(idx), wOpts{prepared: true, preparedHeavy: idx%2 == 0, compress: true, allowF8: true}, -1, "")
+		return runWriterScenario(seed*1000003+int64(idx), wOpts{prepared: true, preparedHeavy: idx%2 == 0, compress: true, allowF8: true, invalid: idx%3 == 0}, -1, "")
 	}
 	streams["dfuzz"] = func(seed int64, idx int) *scenario { return runDialFuzzScenario(seed*1000003 + int64(idx)) }
 	streams["conc"] = func(seed int64, idx int) *scenario { return runConcScenario(seed*1000003 + int64(idx)) }
